@@ -176,9 +176,13 @@ def alias_UBFM(i):
     return m + TokenListJoin(", ",r)
 
 
+def condname(i):
+    return (Token.Literal, "%s" % CONDITION[i.cond][0])
+
+
 def alias_CSINC(i):
     m = mnemo(i)
-    r = regs(i)
+    r = regs(i, 3) + [condname(i)]
     if i.n is i.m:
         if i.cond >> 1 != 0b111:
             if i.n != 0:
@@ -193,7 +197,7 @@ def alias_CSINC(i):
 
 def alias_CSINV(i):
     m = mnemo(i)
-    r = regs(i)
+    r = regs(i, 3) + [condname(i)]
     if i.n is i.m:
         if i.cond >> 1 != 0b111:
             if i.n != 0:
@@ -208,7 +212,7 @@ def alias_CSINV(i):
 
 def alias_CSNEG(i):
     m = mnemo(i)
-    r = regs(i)
+    r = regs(i, 3) + [condname(i)]
     if i.n is i.m:
         if i.cond >> 1 != 0b111:
             m = tok_mnemo("cneg")
@@ -333,6 +337,7 @@ ARM_V8_full_formats = {
     "A64_B": format_B,
     "A64_CBx": format_CBx,
     "A64_CCMx": format_CCMx,
+    "A64_CSx": [mnemo, lambda i: TokenListJoin(", ", regs(i, 3) + [condname(i)])],
     "ASRV": ["asr ", allregs],
     "LSLV": ["lsl ", allregs],
     "LSRV": ["lsr ", allregs],
